@@ -1,6 +1,7 @@
 // C02 (do_move follows the rules), C03 (undo restores everything), C04 (key is a function of the position),
 // C07 (check / mate / stalemate / draw predicates agree with the game history)
 #include "bridge.h"
+#include "ucisession.h"
 #include "registry.h"
 #include "score.h"
 #include "ucirig.h"
@@ -82,6 +83,7 @@ bool c02_pair(const Position& base, const ref::Pos& rp, const ref::Move& m, Repo
 bool prop_C02(Tape& t, Report& rep)
 {
     br::init_engine();
+    if (t.chance(1, 25)) return us::run(t, rep, us::F_C02);
     if (t.weighted({3, 2}) == 0)
     {
         // (a) every legal move of a root (and of its children under a budget)
